@@ -227,7 +227,7 @@ def coq_re(t):
     if k == 'plus':
         return '(plus %s)' % coq_re(t[1])
     if k == 'opt':
-        return '(opt %s)' % coq_re(t[1])
+        return '(optional %s)' % coq_re(t[1])
     if k == 'rep':
         hi = 'None' if t[2] is None else '(Some %d%%nat)' % t[2]
         return '(rep %d%%nat %s %s)' % (t[1], hi, coq_re(t[3]))
